@@ -715,8 +715,8 @@ func TestVerifKeepAlive(t *testing.T) {
 		}
 		for _, ln := range strings.Split(string(b), "\n") {
 			ln = strings.TrimSpace(ln)
-			if ln == "" || strings.HasPrefix(ln, "#") || ln == "reset" || strings.HasPrefix(ln, "kss ") {
-				continue // `kss` lines belong to the stream `sessions`
+			if ln == "" || strings.HasPrefix(ln, "#") || ln == "reset" || strings.HasPrefix(ln, "kss ") || strings.Contains(ln, " side=http ") || strings.Contains(ln, " side=ctxw ") {
+				continue // `kss` lines belong to the stream `sessions`, `kas side=http|ctxw` lines to the stream `http`
 			}
 			c, ok := kaParse(ln)
 			if !ok {
